@@ -44,9 +44,16 @@ namespace vf
 
     inline void finish_case(FlowCase& fc)
     {
+        // effective base levels: masked nodes are not part of the flow graph
         fc.isbase.assign(fc.m.n, 0);
+        fc.bi.has_masked = false;
         for (auto b : fc.bl)
-            fc.isbase[b] = 1;
+        {
+            if (fc.masked(b))
+                fc.bi.has_masked = true;
+            else
+                fc.isbase[b] = 1;
+        }
         fc.reach = vg::reach_from(fc.m, fc.mask, fc.bl);
         fc.has_pocket = false;
         for (size_t i = 0; i < fc.m.n; ++i)
@@ -112,6 +119,8 @@ namespace vf
             c.label("looped");
         if (fc.has_pocket)
             c.label("pocket-without-base-level");
+        if (fc.bi.has_masked)
+            c.label("masked-base-level-in-set");
     }
 
     // ---- accessors on a GraphState ------------------------------------------------------
